@@ -279,6 +279,10 @@ func (cc *completeCtx) covers(v ssa.Value, fn *ssa.Function) (bool, string) {
 		}
 	case *ssa.Phi:
 		return cc.coversPhi(t, fn)
+	case *ssa.MakeSlice:
+		if !isZero(t.Len) {
+			return cc.filledByCopy(t, nil, fn)
+		}
 	case *ssa.Call:
 		name := calleeName(t)
 		if h := t.Call.StaticCallee(); h != nil && len(h.Blocks) > 0 && h.Origin() == nil && cc.x.P.InModule(h) && h.Signature.Results().Len() == 1 {
